@@ -1,0 +1,20 @@
+//go:build verif
+
+package event
+
+import (
+	"github.com/nspcc-dev/neo-go/pkg/neorpc/result"
+	"github.com/nspcc-dev/neo-go/pkg/network/payload"
+)
+
+// VerifPrepare runs the listener's own notary request preparator.
+func VerifPrepare(l Listener, nr *payload.P2PNotaryRequest) ([]NotaryEvent, error) {
+	return l.(*listener).notaryEventsPreparator.Prepare(nr)
+}
+
+// VerifHandleNotary runs the listener's notary request processing (preparation,
+// parser and handler dispatch) synchronously, the way listenForNotary does for
+// every received request.
+func VerifHandleNotary(l Listener, nr *payload.P2PNotaryRequest) {
+	l.(*listener).parseAndHandleNotary(&result.NotaryRequestEvent{NotaryRequest: nr})
+}
